@@ -22,7 +22,8 @@ RULE = ('synthetic bead samples: 6..8 subpopulations, adjacent brightness ratio 
         'each (balanced: one size +-10%; unbalanced: independent sizes), random event order, slope in [0.9,1.2], intercept '
         'in [1,5], autofluorescence < 1/3 dimmest non-blank, 1..3 channels with independent laws, optional blank, optional '
         'saturated brightest/dimmest, optional unknown (None/NaN) entries x clustering channel subsets x statistic '
-        '(median/mean) x seeds; non-trivial = every case; distinct = digest(events)')
+        '(median/mean) x seeds; non-trivial = every case; distinct = digest(events)'
+        ' Also: selection on a log axis or with an explicit lower threshold, populations entirely on the lower limit, requests naming a channel twice, target samples whose columns are arranged unlike the beads file, the short return form with progress messages.')
 ASSUMPTIONS = ['float32 ($DATATYPE=F) bead files holding RFI directly; subpopulation statistics evaluated in the sample dtype',
                'clause 4 reuses fit_beads_autofluorescence (decided by C09)',
                'known-finding classifier: the K middle-half equal-count quantile windows (ordered by display-space distance '
